@@ -17,8 +17,9 @@ static std::string sym_string() {
   uint64_t n = vf_nondet_u64(); vf_assume(n <= L);
   return std::string(b, n);
 }
-static int ref_lower(int c) { return (c >= 'A' && c <= 'Z') ? c + 32 : c; }
-// independent reference: case-folded lexicographic "less" on the (signed) char values, shorter prefix first
+// glibc C locale: bytes >= 0x80 order by their unsigned value, except 0xFF (== EOF as a signed char) which stays -1
+static int ref_lower(int c) { if (c < -1) c += 256; return (c >= 'A' && c <= 'Z') ? c + 32 : c; }
+// independent reference: case-folded lexicographic "less" on the byte values, shorter prefix first
 static bool ref_less(const std::string& a, const std::string& b) {
   for (size_t i = 0; i < L; i++) {
     if (i >= a.size() || i >= b.size()) break;
